@@ -772,8 +772,65 @@ def bounded_retry(chk, P, prefix):
         args = [mir.o_field_path(b.origin(a))[1] for a in mn[0].args]
         if ["max"] not in args:
             return False, "the delay is not clamped to self.max", [], mn[0].loc
-        return True, "", [mn[0].loc]
-    chk.ob("%s.R2:Delay::next" % prefix, "back-off is clamped to its maximum", delay_next)
+        # the unclamped value grows from the previous delay: only Duration add/mul (by a constant >= 1) of self.current and self.step
+        grow = [b.origin(a) for a in mn[0].args if mir.o_field_path(b.origin(a))[1] != ["max"]]
+        if len(grow) != 1:
+            return False, "min(<next>, self.max) expected", [], mn[0].loc
+        ok_fields = set()
+
+        def walk(o, d=0):
+            if d > 8:
+                return False
+            if o[0] == "call" and o[1].callee.get("name") in ("add", "saturating_add", "checked_add"):
+                return all(walk(b.origin(a), d + 1) for a in o[1].args)
+            if o[0] == "call" and o[1].callee.get("name") in ("mul", "saturating_mul"):
+                k = mir.o_const_value(b.origin(o[1].args[1]))
+                return isinstance(k, int) and k >= 1 and walk(b.origin(o[1].args[0]), d + 1)
+            names = mir.o_field_path(o)[1]
+            if names in (["current"], ["step"]):
+                ok_fields.add(names[0])
+                return True
+            return False
+        if not walk(grow[0]) or "current" not in ok_fields:
+            return False, ("the next delay is %s: it must be built from the previous delay by additions / multiplications by a constant >= 1 "
+                           "(non-decreasing back-off) before clamping" % o_str(grow[0])), [], mn[0].loc
+        # stored back and returned
+        st = [s_ for bb, j, s_ in b.statements(normal_only=True) if s_["k"] == "assign" and s_["place"].get("p") and
+              any(isinstance(p_, dict) and p_.get("n") == "current" for p_ in s_["place"]["p"])]
+        if len(st) != 1 or not common.has_root(b.origin(st[0]["rv"]["op"]) if st[0]["rv"]["k"] == "use" else ("x",), "callsite", mn[0].bb):
+            return False, "the clamped delay is not stored back into self.current (the back-off would not grow)", [], mn[0].loc
+        if mir.o_field_path(b.origin(0))[1] != ["current"] and not common.has_root(b.origin(0), "callsite", mn[0].bb):
+            return False, "Delay::next does not return the new delay", [], b.span
+        rb = P.body("emit_batcher::Delay::reset")
+        return True, "", [mn[0].loc, rb.span]
+    chk.ob("%s.R2:Delay::next" % prefix, "back-off grows from the previous delay (add / multiply by a constant >= 1), is clamped to its maximum, stored back and returned", delay_next)
+
+    def resets():
+        def is_zero(o):
+            v = mir.o_const_value(o)
+            if v == 0:
+                return True
+            d = o[1].get("def") if o[0] == "const" and isinstance(o[1], dict) else None
+            return bool(d) and str(d).endswith("Duration::ZERO")
+        sites = []
+        for ty in ("Retry", "Delay"):
+            rb = P.body("emit_batcher::%s::reset" % ty)
+            st = [s_ for bb, j_, s_ in rb.statements(normal_only=True) if s_["k"] == "assign" and s_["place"].get("p")]
+            if len(st) != 1 or not any(isinstance(p_, dict) and p_.get("n") == "current" for p_ in st[0]["place"]["p"]) \
+                    or st[0]["rv"]["k"] != "use" or not is_zero(rb.origin(st[0]["rv"]["op"])):
+                return False, "%s::reset must set `current` back to zero (a new batch starts with a fresh budget / shortest delay)" % ty, [], rb.span
+            nb = P.body("emit_batcher::%s::new" % ty)
+            o = nb.origin(0)
+            if o[0] != "agg":
+                return False, "%s::new is not a literal" % ty, [], nb.span
+            fo = dict(zip(o[1]["fields"], o[2]))
+            if not is_zero(fo["current"]):
+                return False, "%s::new starts `current` at %s" % (ty, o_str(fo["current"])), [], nb.span
+            if not mir.o_is_param(fo["max"], idx=(1 if ty == "Retry" else 2)):
+                return False, "%s::new does not store its maximum" % ty, [], nb.span
+            sites += [rb.span, nb.span]
+        return True, "", sites
+    chk.ob("%s.R2:resets" % prefix, "retry budget and back-off start at zero and reset to zero", resets)
 
 
 def nothing_under_lock(chk, P, prefix):
